@@ -23,6 +23,9 @@ def invalid_by_construction():
     g = wire.ws_handshake(key=KEY)
     p = b"/api/jet/"
     return {
+        # a peer that talks HTTP in the wrong direction: the first line is a status line
+        "response-status-line": b"HTTP/1.1 200 OK\r\nContent-Length: 0\r\n\r\n", "response-then-upgrade": b"HTTP/1.1 200 OK\r\n\r\n" + g,
+        "response-101-then-upgrade": b"HTTP/1.1 101 Switching Protocols\r\nUpgrade: websocket\r\nConnection: Upgrade\r\n\r\n" + g,
         "wrong-path": g.replace(p, b"/other/"), "path-prefix-only": g.replace(p, b"/api/je"), "wrong-method": g.replace(b"GET", b"POST"),
         "http-1.0": g.replace(b"HTTP/1.1", b"HTTP/1.0"), "http-0.9": g.replace(b" HTTP/1.1", b""), "no-upgrade-header": g.replace(b"Upgrade: websocket\r\n", b""),
         "no-connection-header": g.replace(b"Connection: Upgrade\r\n", b""), "version-12": g.replace(b"Version: 13", b"Version: 12"),
@@ -82,8 +85,9 @@ def http(case, res):
             elif cls == "invalid":
                 if status == 101:
                     S.v("http/non-upgrade-answered-101:" + label, repr(data[:120]))
-                elif status is None and not closed_early and how is None:
-                    pass
+                elif status is None and not closed_early and b"\r\n\r\n" in data and label != "truncated":
+                    # the request is complete (its header block ended) and it is not a valid upgrade: waiting for more is no answer
+                    S.v("http/complete-non-upgrade-left-pending:" + label, repr(data[:120]))
             # end of the exchange from the client side
             if not c.closed:
                 if how == "rst":
